@@ -170,6 +170,12 @@ fn plant(v: &mut crate::model::Val, bad: &crate::model::Val, rng: &mut Rng) {
 
 /// The input of case `idx`.
 pub fn case_input(seed: u64, idx: usize, thorough: bool) -> (Vec<u8>, &'static str) {
+    // the first cases are the hand-written seeds, each once and whole (rare forms of every format)
+    static SEEDS: std::sync::OnceLock<Vec<Vec<u8>>> = std::sync::OnceLock::new();
+    let seeds = SEEDS.get_or_init(|| corpus::seeds().into_iter().map(|s| s.bytes).collect());
+    if idx < seeds.len() {
+        return (seeds[idx].clone(), "seed_whole");
+    }
     if idx % 4 == 3 {
         adversarial(seed, idx / 4, thorough)
     } else {
